@@ -445,12 +445,24 @@ func judge(c *mon.Case, r *mon.Run, sf base.ServerFactory, b o4.Bridge, bi, pi i
 	} else if res.ClosedAt != *D {
 		c.Violation("delay-differs/"+clsKey(pr.class), fmt.Sprintf("server closed a %s probe at accept+%v but a %s probe against the same bridge at accept+%v", pr.class, res.ClosedAt, *Dclass, *D), w)
 	}
-	if res.ReturnAt != res.ClosedAt {
-		c.Violation("return-not-at-close", fmt.Sprintf("WrapConn returned at +%v but closed at +%v", res.ReturnAt, res.ClosedAt), w)
+	// The program that calls WrapConn closes the connection itself as soon as
+	// WrapConn returns an error, so a return before the close instant would be
+	// an earlier close in the running proxy; a return after it is harmless.
+	if res.ReturnAt < res.ClosedAt {
+		c.Violation("return-before-close", fmt.Sprintf("WrapConn returned at +%v, before the connection was closed at +%v (the caller closes on return)", res.ReturnAt, res.ClosedAt), w)
+	} else if res.ReturnAt > res.ClosedAt {
+		r.Count("wrapconn_returned_after_close", 1)
 	}
-	// everything the probe wrote before the close was consumed
-	if res.Consumed != res.Sent {
-		c.Violation("stopped-consuming/"+clsKey(pr.class), fmt.Sprintf("server consumed only %d of the %d bytes the probe wrote before the close", res.Consumed, res.Sent), w)
+	// everything the probe wrote (strictly) before the close instant was consumed
+	ws, _, _ := res.Client.Out().Snapshot()
+	var sentBefore int64
+	for _, e := range ws {
+		if e.T < res.ClosedAt {
+			sentBefore += int64(e.N)
+		}
+	}
+	if res.Consumed < sentBefore {
+		c.Violation("stopped-consuming/"+clsKey(pr.class), fmt.Sprintf("server consumed only %d of the %d bytes the probe wrote before the close", res.Consumed, sentBefore), w)
 	}
 	r.Count("bytes_discarded", res.Consumed)
 	if pi < 2 && bi < 2 {
